@@ -10,6 +10,13 @@ result satisfies the bounds for every t; t=0 / t=1 give the endpoints (equalStat
 own sanityChecks statement distance <= float-eps slack); re-parameterisation
 interpolate(interpolate(a,b,s), b, u) ~ interpolate(a,b,s+(1-s)u) for spaces without a discrete
 component; distance(a, interpolate(a,b,t)) = t*distance(a,b) for the geodesic spaces the property lists.
+Car-like spaces (Dubins plain + symmetric, Reeds-Shepp, Owen, Vana, VanaOwen, and wrappers / compounds containing them;
+their own sanityChecks() switch the interpolation tests off): the same clauses on the 4-argument interpolate (closeness
+measured on the pose values, not with their path-length distance; the position box is not judged: their curves leave it by
+design), plus `walk`: the CACHED overloads (firstTime/path resp. a caller-held PathType) on one cache object per line —
+first call at t=0 / t=1 / an interior t, sequences, re-use after the end points changed — compared point by point with the
+4-argument result on fresh states, with the output aliasing either input.  Top-level Dubins / Reeds-Shepp are answered by
+the Lean model (Model/SpaceInterpCar.lean over C14's planner models) bit for bit; the others by the oracle alone.
 """
 import math
 import os
@@ -19,6 +26,8 @@ from lib import core
 
 DRIVER = "drv_spaceinterp"
 LEAN_TARGETS = ["OmplModel.Props.C07", DRIVER]
+# imported by Props/C07.lean; its theorems are obligations of C07 too (car-like spaces: cached overloads, round 10)
+EXTRA_PROPS = [os.path.join(core.LEAN, "OmplModel", "Props", "C07Car.lean")]
 # The model (`interpolateTree`) already carries the PROPOSED Mobius repair notes/C07-fix-F159.diff.  While that diff is not
 # in /repo the implementation equals the variant without it (`old159`) on the few lines where the two differ (the F159
 # inputs — which the oracle reports as the known finding F159 — and extrapolation t outside [0,1], which is not judged).
@@ -1669,11 +1678,17 @@ def run(ck):
     ck.rule = ("one case = one interpolate / re-parameterisation line (space, from, to, t | s,u); non-trivial if from != to "
                "and the parameter is strictly inside (0,1); distinct by (space line, op line) text")
     ck.trusted += ["harness/spaceinterp.cpp + harness/common/spaces.h (protocol <-> real state spaces; no hooks in /repo)",
+                   "car-like spaces: lean/OmplModel/Model/Dubins.lean and ReedsShepp.lean (C14's planner / integration models, imported read-only); "
+                   "Owen / Vana / VanaOwen and wrappers / compounds of car-like spaces have no model here: the oracle (4-argument result on fresh, "
+                   "non-aliased states as reference) judges alone",
                    "the aliasing clause is tied by running every interpolate with the output distinct, == from and == to "
                    "(bit comparison) and by the read/write-order obligation over lean/OmplModel/Generated/RwSets.lean when present",
                    "python oracle in checks/c07.py (slack = float epsilon * max(1, maximum extent), as StateSpace::sanityChecks; the extent is re-computed from the space description, not taken from the implementation)"]
     ck.assumptions += ["input states satisfy the space's own satisfiesBounds (SO(3): unit quaternions within 1e-9); t,s,u in [0,1]",
                        "theorems are over the reals: IEEE rounding is executed (bit-exact correspondence) but not verified",
+                       "car-like spaces: the position box is not judged (curves between in-bounds poses leave it by design), pairs for which a 3D space "
+                       "finds no path are not judged (C14's F126 / F145), re-parameterisation is demanded of Dubins and Reeds-Shepp only (3D paths are "
+                       "heuristic and re-planned from the intermediate point); all three are counted in the evidence under `not-judged:`",
                        "re-parameterisation is demanded for spaces without a discrete component; proportional distance for R^n, SO(2), "
                        "SO(3), SE(2), SE(3), time, torus and weighted compounds/wrappers of them (as the property lists)"]
     gen = os.path.join(core.VERIF, "extract", "rwsets.py")
@@ -1682,7 +1697,7 @@ def run(ck):
         ck.log("extract/rwsets.py: %s" % ("ok" if r.returncode == 0 else "FAILED " + (r.stdout + r.stderr)[-300:]))
         if r.returncode != 0:
             ck.failed_obligations.append(("rwsets-translator", (r.stdout + r.stderr)[-400:]))
-    ck.lean_build(LEAN_TARGETS)
+    ck.lean_build(LEAN_TARGETS, extra_props=EXTRA_PROPS)
     ck.audit(roots=["Drv.SpaceInterp"])
     if ck.tier == "thorough" and ck.lean_ok:
         ck.leanchecker(["OmplModel.Props.C07"])
@@ -1758,6 +1773,13 @@ def run(ck):
                 order.append(gk)
 
     order.sort(key=lambda k_: 0 if k_[0] == "oracle" else 1)     # concrete failing inputs first
+    if any(k_[0] == "oracle" and k_[1] in ("walk", "walk-endpoint") for k_ in order):
+        # the cached overload is already reported with concrete failing call sequences; a `walk` line on which model and
+        # implementation differ but that the oracle accepts (e.g. an end point that is now copied instead of integrated)
+        # is the same change seen again, not a second finding
+        for k_ in [k_ for k_ in order if k_[0] == "corr" and k_[1] == "walk"]:
+            ck.count("correspondence disagreement on `walk` explained by the reported cached-overload failures")
+            order.remove(k_)
     for key in order[:12]:
         script, idx, rec, impl, model = groups[key]
         small = minimal(script, idx)
@@ -1806,7 +1828,9 @@ MANIFEST = {
     "category": "proof",
     "design_ref": "DESIGN.md 2.7",
     "text": "Lean 4 theorems over an executable model of StateSpace::interpolate for every shipped state space incl. SpaceTime, "
-            "Empty, Wrapper and the CForest wrapper; Dubins-family curves are C14's, constrained spaces C16's (end points, "
+            "Empty, Wrapper and the CForest wrapper, and (round 10) the cached interpolate overloads of Dubins / Reeds-Shepp as a state machine "
+            "over C14's planner models (history independence of the cache, the path overload's alias safety from extracted rw-sets); "
+            "Owen / Vana / VanaOwen and compounds of car-like spaces are oracle-only; constrained spaces are C16's (end points, "
             "bounds, re-parameterisation incl. SO(3) slerp composition and the Mobius seam, proportional distance incl. SO(3) outside "
             "the arcLength clamp band, weight-irrelevance, fixed coordinates, a general soundness theorem for the aliasing rw-set "
             "obligation; arbitrarily nested weighted compounds by structural induction), "
